@@ -1790,7 +1790,16 @@ impl<'a> Parser<'a> {
         let previous = s.previous.clone();
         let name = s.identifier_constant(&previous);
 
-        let instance_local_name = s.compiler().locals[0].name.clone();
+        // The receiver is slot zero of the method whose body this is. Inside a nested function or
+        // lambda slot zero is that function itself, so look outwards for the enclosing method and
+        // reach its receiver (`self`, or `Self` in a static method) as an upvalue.
+        let instance_local_name = s
+            .compilers
+            .iter()
+            .rev()
+            .find(|c| c.kind != FunctionKind::Function)
+            .map(|c| c.locals[0].name.clone())
+            .unwrap_or_default();
         s.named_variable(Token::from_string(instance_local_name.as_str()), false);
         if s.match_token(TokenKind::LeftParen) {
             let arg_count = s.argument_list(
